@@ -89,7 +89,7 @@ def run_cases(ctx, case_fn, examples, queries_per_state=12, rounds=3):
     last = {}
 
     def body(data):
-        desc = data.draw(bgen.states())
+        desc = data.draw(bgen.states_mixed())
         bgen.build_state(svc, desc, base)
         d = dump(svc.dbpath)
         snap = svc.snapshot()
